@@ -11,6 +11,26 @@ reference written in the checker.  Nothing of the repository is imported,
 compiled, exec'd or eval'd; the evaluator has no model for I/O, and anything
 outside its vocabulary raises AnalysisError (exit 2), it never guesses.
 
+Vocabulary (second pass): every statement of Python 3.12 a synchronous function
+can contain -- including `match` with literal / singleton / capture / wildcard /
+or / sequence (star) / mapping (**rest) / class patterns (positional through
+__match_args__, namedtuple and dataclass fields, the host's self-matching
+builtins) and guards, `with` over interpreted managers, contextlib.suppress /
+nullcontext / @contextmanager generators and in-memory host buffers, classes
+defined inside functions (closure-free), `type` aliases -- and generator
+functions with yields anywhere a statement can suspend (inside if / for / while
+/ try-finally / with / match, `x = yield v`, `return (yield from g)`), sent
+values, generator return values and `yield from` delegation.  Classes: plain,
+enum, namedtuple (collections.namedtuple base and typing.NamedTuple class
+syntax), @dataclass (init / repr / eq / order / frozen / kw_only / field() /
+__post_init__ / replace / astuple / asdict), iterator classes (__iter__ /
+__next__).  Module level: conditional definitions (`if cond: X = a else: X =
+b`, the test is evaluated), try / except ImportError fallbacks (the body's
+binding only where the body certainly completes, refused otherwise), import-time
+loops replayed tolerantly for every module touched.  Only `await`, a yield nested
+inside an expression, class decorators other than dataclass, user-defined
+descriptors / metaclass __call__ / __init_subclass__ stay outside (refused).
+
 Values: ints, bytes, str, tuples, lists, dicts, sets are host values (their
 operators are the host's, hence faithful); instances of repository classes
 are Obj / IntInst (int-derived: enums) / TupleInst (namedtuple-derived);
@@ -21,9 +41,13 @@ ExtModule (explicit models of a few pure stdlib modules).
 import ast
 import base64 as _base64
 import binascii
+import bisect as _bisect
+import codecs as _codecs
 import collections
+import dataclasses as _dataclasses
 import functools
 import html as _html
+import io as _io
 import itertools
 import math
 import operator
@@ -202,6 +226,18 @@ class Builtin:
         return self.fn(*a, **k)
 
 
+class SynthMethod(Builtin):
+    """a method the host would generate for a class (dataclass __init__/__eq__/...): written in the checker, bound
+    like a function defined in the class body"""
+
+
+class DCField:
+    """dataclasses.field(...)"""
+
+    def __init__(self, default=_dataclasses.MISSING, default_factory=_dataclasses.MISSING, init=True, repr=True, hash=None, compare=True, metadata=None, kw_only=_dataclasses.MISSING):
+        self.default, self.default_factory, self.init, self.repr, self.hash, self.compare, self.kw_only = default, default_factory, init, repr, hash, compare, kw_only
+
+
 class NullLogger:
     pass
 
@@ -238,6 +274,21 @@ class Suppress:
         self.types = tuple(types)
 
 
+class NullContext:
+    """contextlib.nullcontext(value)"""
+
+    def __init__(self, value=None):
+        self.value = value
+
+
+class GenContext:
+    """the context manager made by a @contextlib.contextmanager function: wraps the (host) generator that runs the
+    interpreted generator function"""
+
+    def __init__(self, gen):
+        self.gen = gen
+
+
 class _Sig:
     __slots__ = ("kind", "value")
 
@@ -253,13 +304,17 @@ SAFE_TYPES = (
     int, bool, float, complex, str, bytes, bytearray, tuple, list, dict, set, frozenset, range, slice, type(None),
     collections.OrderedDict, collections.defaultdict, collections.deque, collections.Counter, memoryview,
     type(NotImplemented), type(Ellipsis),
+    struct.Struct, _io.BytesIO, _io.StringIO,  # pure in-memory host objects (a precompiled format, a growing buffer)
+    types.MappingProxyType,  # read-only view of a dict
 )
 _ITER_TYPES = tuple(
     {type(iter([])), type(iter(())), type(iter({})), type(iter(set())), type(iter(b"")), type(iter("")), type(iter(range(0))), type({}.keys()), type({}.values()),
      type({}.items()), type(iter({}.values())), type(iter({}.items())), enumerate, zip, map, filter, reversed, types.GeneratorType, type(iter(bytearray())),
      itertools.chain, itertools.count, itertools.islice, itertools.repeat, itertools.accumulate, itertools.takewhile, itertools.dropwhile, itertools.zip_longest,
      itertools.product, itertools.starmap, itertools.groupby, itertools.cycle, itertools.permutations, itertools.combinations, type(reversed({}.keys()) if sys.version_info >= (3, 8) else iter(())),
-     type(reversed([])), type(iter(collections.deque()))}
+     type(reversed([])), type(iter(collections.deque())), itertools.compress, itertools.filterfalse, itertools.combinations_with_replacement,
+     type(itertools.tee(())[0]), type(struct.iter_unpack("B", b""))}
+    | {getattr(itertools, n) for n in ("pairwise", "batched") if hasattr(itertools, n)}
 )
 
 HOST_EXC = {n: v for n, v in vars(__import__("builtins")).items() if isinstance(v, type) and issubclass(v, BaseException)}
@@ -331,6 +386,10 @@ def _assigned_names(node):
             out.add(n.name)
         elif isinstance(n, (ast.MatchAs, ast.MatchStar)) and getattr(n, "name", None):
             out.add(n.name)
+        elif isinstance(n, ast.MatchMapping) and n.rest:
+            out.add(n.rest)
+        elif isinstance(n, getattr(ast, "TypeAlias", ())) and isinstance(n.name, ast.Name):
+            out.add(n.name.id)
         for c in ast.iter_child_nodes(n):
             rec(c)
 
@@ -351,6 +410,11 @@ def _assigned_names(node):
         for x in ast.walk(node):
             pass
     return out - glob, glob
+
+
+def _exclusive(arms_a, arms_b):
+    """two statements sit in different arms of the same if statement"""
+    return any(a[0] == b[0] and a[1] != b[1] for a in arms_a for b in arms_b)
 
 
 def _has_yield(fnode):
@@ -384,6 +448,8 @@ class Interp:
         self._effects_done = set()
         self._clcache = {}
         self._clver = 0
+        self._ycache = {}
+        self._dc = {}
         self.effect_modules = set(effect_modules) | set(tolerant_effect_modules)  # repository modules whose import-time statements are replayed
         self.tolerant = set(tolerant_effect_modules) - set(effect_modules)  # ... of these, statements outside the vocabulary are skipped (and listed)
         self.skipped_effects = []
@@ -437,48 +503,123 @@ class Interp:
         return self.prog.modules[name]
 
     def _module_bindings(self, m):
-        """name -> last top-level statement binding it (conditional blocks: flattened, try: body first wins)"""
+        """name -> (statement binding it, conditional?) for a name bound by one top-level statement;
+        name -> ("multi", candidates) for a name bound by several, candidates = [(statement, conditional?, arms)] with
+        arms = the (if-statement, arm, test, polarity) tuples the statement sits under, or None where the bindings are
+        not simple statements.  Conditional blocks are flattened; of a try statement the body's bindings count (the
+        handlers hold fallback definitions)."""
         key = "bind:" + m.name
         b = self._scope.get(key)
         if b is not None:
             return b
         b = {}
 
-        def scan(body, cond):
+        def add(name, st, cond, arms, first_wins=False):
+            prev = b.get(name)
+            if prev is None:
+                b[name] = (st, cond, arms)
+            elif prev[0] is st:
+                return
+            elif prev[0] == "multi":
+                if prev[1] is not None and not first_wins:
+                    prev[1].append((st, cond, arms))
+            elif first_wins and not _exclusive(prev[2], arms):
+                return
+            else:
+                b[name] = ("multi", [prev, (st, cond, arms)])
+
+        def scan(body, cond, arms):
             for st in body:
                 if isinstance(st, (ast.FunctionDef, ast.AsyncFunctionDef, ast.ClassDef)):
-                    b[st.name] = (st, cond)
+                    add(st.name, st, cond, arms)
                 elif isinstance(st, ast.Assign):
                     for t in st.targets:
                         for n in ast.walk(t):
                             if isinstance(n, ast.Name) and isinstance(n.ctx, ast.Store):
-                                b[n.id] = (st, cond) if n.id not in b or b[n.id][0] is st else ("multi", [b[n.id], (st, cond)])
+                                add(n.id, st, cond, arms)
                 elif isinstance(st, ast.AnnAssign) and isinstance(st.target, ast.Name) and st.value is not None:
-                    b[st.target.id] = (st, cond)
+                    add(st.target.id, st, cond, arms)
                 elif isinstance(st, ast.AugAssign) and isinstance(st.target, ast.Name):
                     b[st.target.id] = ("multi", None)
                 elif isinstance(st, (ast.Import, ast.ImportFrom)):
                     for a in st.names:
                         nm = (a.asname or a.name).split(".")[0]
-                        b.setdefault(nm, (st, cond))
+                        add(nm, st, cond, arms, first_wins=True)
                 elif isinstance(st, ast.If):
-                    scan(st.body, True)
-                    scan(st.orelse, True)
+                    scan(st.body, True, arms + ((id(st), 0, st.test, True),))
+                    scan(st.orelse, True, arms + ((id(st), 1, st.test, False),))
                 elif isinstance(st, ast.Try):
-                    scan(st.body, cond)
-                    for h in st.handlers:
-                        for st2 in h.body:
-                            if isinstance(st2, (ast.Import, ast.ImportFrom, ast.Assign, ast.FunctionDef, ast.ClassDef)):
-                                pass  # fallback definitions: the body's binding wins
-                    scan(st.orelse, cond)
-                elif isinstance(st, (ast.For, ast.While, ast.With)):
+                    if st.handlers and not self._try_body_completes(m, st.body):
+                        # whether the body completes depends on the host (an optional dependency, a platform constant):
+                        # every name the statement binds is refused on use, none is guessed
+                        for n in ast.walk(st):
+                            if isinstance(n, ast.Name) and isinstance(n.ctx, ast.Store):
+                                b[n.id] = ("multi", None)
+                            elif isinstance(n, (ast.FunctionDef, ast.AsyncFunctionDef, ast.ClassDef)):
+                                b[n.name] = ("multi", None)
+                            elif isinstance(n, (ast.Import, ast.ImportFrom)):
+                                for a in n.names:
+                                    b[(a.asname or a.name).split(".")[0]] = ("multi", None)
+                        continue
+                    scan(st.body, cond, arms)
+                    scan(st.orelse, cond, arms)
+                elif isinstance(st, (ast.For, ast.While, ast.With, ast.Match)):
                     for n in ast.walk(st):
                         if isinstance(n, ast.Name) and isinstance(n.ctx, ast.Store):
                             b[n.id] = ("multi", None)
 
-        scan(m.tree.body, False)
+        scan(m.tree.body, False, ())
+        self._scope["arms:" + m.name] = {k: v[2] for k, v in b.items() if v[0] != "multi" and v[2]}
+        b = {k: (v if v[0] == "multi" else (v[0], v[1])) for k, v in b.items()}
         self._scope[key] = b
         return b
+
+    def _try_body_completes(self, m, body):
+        """the body of a module-level try statement cannot raise: it only imports modules that certainly exist (modules
+        of the repository, names of the standard-library models of this evaluator), defines functions / classes and
+        binds constants"""
+        for st in body:
+            if isinstance(st, ast.Import):
+                for a in st.names:
+                    if not (a.name in self.prog.modules or a.name.split(".")[0] in self.ext):
+                        return False
+            elif isinstance(st, ast.ImportFrom):
+                if st.level:
+                    pkgparts = m.name.split(".") if m.is_pkg else m.name.split(".")[:-1]
+                    modname = ".".join(pkgparts[: len(pkgparts) - (st.level - 1)] + ([st.module] if st.module else []))
+                else:
+                    modname = st.module or ""
+                for a in st.names:
+                    if modname in self.prog.modules:
+                        if not (modname + "." + a.name in self.prog.modules or a.name in self._module_bindings(self.prog.modules[modname])):
+                            return False
+                    elif not (modname in self.ext and a.name in self.ext[modname].attrs):
+                        return False
+            elif isinstance(st, (ast.FunctionDef, ast.AsyncFunctionDef, ast.ClassDef)):
+                if st.decorator_list:
+                    return False
+            elif isinstance(st, (ast.Assign, ast.AnnAssign)):
+                if st.value is not None and not isinstance(st.value, ast.Constant):
+                    return False
+            elif isinstance(st, ast.Pass) or (isinstance(st, ast.Expr) and isinstance(st.value, ast.Constant)):
+                continue
+            else:
+                return False
+        return True
+
+    def _select_binding(self, m, name, cands):
+        """several top-level statements bind the name.  Where every two of them sit in different arms of one `if`
+        statement (a conditional definition: exactly one of them is executed when the module is imported) the tests
+        are evaluated and the one executed is the binding; anything else (re-binding in sequence, loops) is refused."""
+        if cands is None or not all(_exclusive(x[2], y[2]) for i, x in enumerate(cands) for y in cands[i + 1:]):
+            raise Unsupported("module global %s.%s is bound more than once" % (m.name, name))
+        if any(isinstance(c[0], ast.ClassDef) for c in cands):
+            raise Unsupported("class %s.%s is defined conditionally" % (m.name, name))
+        fr = Frame(set(), None, m)
+        for st, cond, arms in cands:
+            if all(bool(self.truth(self.eval(test, fr))) == pol for _i, _a, test, pol in arms):
+                return st, cond
+        raise KeyError(name)
 
     def global_lookup(self, modname, name, default=KeyError):
         self.run_effects(modname)
@@ -497,13 +638,26 @@ class Interp:
                 raise KeyError(name)
             return default
         st, cond = b[name]
-        if st == "multi":
-            raise Unsupported("module global %s.%s is bound more than once" % (modname, name))
         key = (modname, name)
         if key in self._global_busy:
             raise Unsupported("cyclic definition of module global %s.%s" % key)
         self._global_busy.add(key)
         try:
+            if st == "multi":
+                try:
+                    st, cond = self._select_binding(m, name, cond)
+                except KeyError:
+                    if default is KeyError:
+                        raise
+                    return default
+            elif cond:
+                # bound under `if` statements only: bound iff their tests hold when the module is imported
+                arms = self._scope["arms:" + modname].get(name, ())
+                cfr = Frame(set(), None, m)
+                if not all(bool(self.truth(self.eval(test, cfr))) == pol for _i, _a, test, pol in arms):
+                    if default is KeyError:
+                        raise KeyError(name)
+                    return default
             fr = Frame(set(), None, m)
             if isinstance(st, (ast.FunctionDef, ast.AsyncFunctionDef)):
                 v = self.make_function(st, fr)
@@ -650,6 +804,8 @@ class Interp:
         fr.func = None
         enum_like = self.kind_of(qn) == "enum"
         self._exec_class_body(ci.node.body, fr, qn, enum_like)
+        if qn in self._dc:
+            self._dataclass_finish(qn, ns)
         self._clver += 1
         return ns
 
@@ -729,8 +885,17 @@ class Interp:
         for q in self.prog.mro(qn):
             if q in self.prog.classes:
                 cnode = self.prog.classes[q].node
-                if cnode.decorator_list:
-                    raise Unsupported("class %s is decorated (%s): class decorators have no model in the evaluator" % (q, ast.unparse(cnode.decorator_list[0])))
+                if "__init_subclass__" in self.prog.classes[q].methods and q != qn:
+                    # the hook runs when a subclass is *created*, i.e. in import order, which a lazily evaluated
+                    # program does not have: refused rather than skipped
+                    raise Unsupported("class %s is created through %s.__init_subclass__" % (qn, q))
+                for dnode in cnode.decorator_list:
+                    dparams = self._dataclass_decorator(dnode, self.prog.classes[q].module)
+                    if dparams is None:
+                        raise Unsupported("class %s is decorated (%s): this class decorator has no model in the evaluator" % (q, ast.unparse(dnode)))
+                    self._dc[q] = dparams
+                if any(b == "typing.NamedTuple" for b in self.prog.classes[q].bases) and kind == "plain":
+                    kind, extra = "namedtuple", self._typed_namedtuple(q)
                 for kw in cnode.keywords:
                     if kw.arg == "metaclass" and ast.unparse(kw.value).split(".")[-1] not in ("ABCMeta", "EnumMeta", "EnumType", "ExtensibleEnumMeta"):
                         mq = self.prog.resolve_in_module(self.prog.classes[q].module, ast.unparse(kw.value))
@@ -753,6 +918,8 @@ class Interp:
             elif q in BUILTIN_EXC or last in BUILTIN_EXC:
                 if kind == "plain":
                     kind = "exception"
+            elif q == "typing.NamedTuple" and kind == "namedtuple":
+                continue
             elif last in ("NamedTuple", "TypedDict"):
                 kind, extra = "external", q
             elif last in ("object", "ABC", "Generic", "Protocol", "ABCMeta") or q.startswith("typing.") or "[" in q or q.startswith("abc."):
@@ -767,6 +934,206 @@ class Interp:
     def kind_extra(self, qn):
         self.kind_of(qn)
         return self._kind[qn][1]
+
+    def _typed_namedtuple(self, q):
+        """class X(typing.NamedTuple): the annotated names of the body are the fields, their values the defaults --
+        the same class-like value as collections.namedtuple("X", fields, defaults=...)"""
+        ci = self.prog.classes[q]
+        fields, defaults = [], []
+        fr = Frame(set(), None, ci.module)
+        for st in ci.node.body:
+            if isinstance(st, ast.AnnAssign) and isinstance(st.target, ast.Name):
+                fields.append(st.target.id)
+                if st.value is not None:
+                    defaults.append(self.eval(st.value, fr))
+                elif defaults:
+                    raise Unsupported("NamedTuple %s: field without default after a field with default" % q)
+        return NTBase(q.split(".")[-1], fields, tuple(defaults))
+
+    # -- dataclasses: the decorator is read syntactically (class decorators are not evaluated), the methods the host
+    #    would generate are written here once, from the documented semantics of dataclasses.dataclass ------------------
+    _DC_FLAGS = {"init": True, "repr": True, "eq": True, "order": False, "unsafe_hash": False, "frozen": False, "match_args": True, "kw_only": False, "slots": False, "weakref_slot": False}
+
+    def _dataclass_decorator(self, dnode, module):
+        target = dnode.func if isinstance(dnode, ast.Call) else dnode
+        try:
+            q = self.prog.resolve_in_module(module, ast.unparse(target))
+        except Exception:
+            return None
+        if q != "dataclasses.dataclass":
+            return None
+        params = dict(self._DC_FLAGS)
+        if isinstance(dnode, ast.Call):
+            if dnode.args:
+                return None
+            for kw in dnode.keywords:
+                if kw.arg not in params or not (isinstance(kw.value, ast.Constant) and isinstance(kw.value.value, bool)):
+                    raise Unsupported("dataclass parameter %s is not a literal flag" % ast.unparse(kw))
+                params[kw.arg] = kw.value.value
+        return params
+
+    def dataclass_params(self, qn):
+        self.kind_of(qn)
+        for q in self.prog.mro(qn):
+            if q in self._dc:
+                return self._dc[q]
+        return None
+
+    def dataclass_fields(self, cref):
+        """[(name, default, default_factory, options)] in definition order, base classes first"""
+        out = {}
+        self.kind_of(cref.qn)
+        for q in reversed(self.mro(cref)):
+            if q in self._dc:
+                for name, fld in self.class_ns(q).get("__k_dc_own__", ()):
+                    out[name] = (name, fld.default, fld.default_factory, {"init": fld.init, "repr": fld.repr, "compare": fld.compare, "kw_only": fld.kw_only is True})
+        return list(out.values())
+
+    def _dataclass_finish(self, qn, ns):
+        params = self._dc[qn]
+        ci = self.prog.classes[qn]
+        M = _dataclasses.MISSING
+        own = []
+        kw_only = params["kw_only"]
+        for st in ci.node.body:
+            if not (isinstance(st, ast.AnnAssign) and isinstance(st.target, ast.Name)):
+                continue
+            ann = ast.unparse(st.annotation)
+            if "ClassVar" in ann:
+                continue
+            if ann.split(".")[-1] == "KW_ONLY":
+                kw_only = True
+                continue
+            if "InitVar" in ann:
+                raise Unsupported("dataclass %s uses InitVar" % qn)
+            name = st.target.id
+            v = ns.get(name, M) if st.value is not None else M
+            if isinstance(v, Poison):
+                raise Unsupported(v.why)
+            if isinstance(v, DCField):
+                fld = v
+                if fld.default is not M:
+                    ns[name] = fld.default
+                else:
+                    ns.pop(name, None)
+            else:
+                if isinstance(v, (list, dict, set)):
+                    raise Unsupported("dataclass %s: mutable default for %s (the host refuses it)" % (qn, name))
+                fld = DCField(default=v)
+            if fld.kw_only is M:
+                fld.kw_only = kw_only
+            own.append((name, fld))
+        ns["__k_dc_own__"] = own
+        cref = self.classref(qn)
+        I = self
+        fields = lambda: I.dataclass_fields(cref)
+        short = qn.split(".")[-1]
+
+        def same_class(a, b):
+            return isinstance(a, INST) and isinstance(b, INST) and a._k_cref is b._k_cref
+
+        def values(o, which="compare"):
+            return [I.getattr(o, f[0]) for f in fields() if f[3][which]]
+
+        def init(o, *args, **kwargs):
+            fl = [f for f in fields() if f[3]["init"]]
+            pos = [f for f in fl if not f[3]["kw_only"]]
+            if len(args) > len(pos):
+                I.throw(TypeError, "%s.__init__() takes %d positional arguments but %d were given" % (short, len(pos) + 1, len(args) + 1))
+            given = {f[0]: a for f, a in zip(pos, args)}
+            names = {f[0] for f in fl}
+            for k, v in kwargs.items():
+                if k not in names:
+                    I.throw(TypeError, "%s.__init__() got an unexpected keyword argument %r" % (short, k))
+                if k in given:
+                    I.throw(TypeError, "%s.__init__() got multiple values for argument %r" % (short, k))
+                given[k] = v
+            store = I._raw_setattr if params["frozen"] else I.setattr
+            for name, default, factory, opts in fields():
+                if name in given:
+                    val = given[name]
+                elif factory is not M:
+                    val = I.call(factory, [], {})
+                elif default is not M:
+                    val = default
+                elif opts["init"]:
+                    I.throw(TypeError, "%s.__init__() missing required argument %r" % (short, name))
+                else:
+                    continue
+                store(o, name, val)
+            post = I.find_dunder(o, "__post_init__")
+            if post is not None:
+                post()
+            return None
+
+        def repr_(o):
+            return "%s(%s)" % (o._k_cref.qn.split(".")[-1], ", ".join("%s=%s" % (f[0], I.to_repr(I.getattr(o, f[0]))) for f in fields() if f[3]["repr"]))
+
+        def eq(o, other):
+            if not same_class(o, other):
+                return NotImplemented
+            return all(I.truth(I.equals(a, b)) for a, b in zip(values(o), values(other)))
+
+        def order(op, on_equal):
+            def cmp(o, other):
+                if not same_class(o, other):
+                    return NotImplemented
+                for a, b in zip(values(o), values(other)):
+                    if not I.truth(I.equals(a, b)):
+                        return I.truth(I.compare(op(), a, b))
+                return on_equal
+            return cmp
+
+        def frozen_set(o, name, val):
+            I.throw(_dataclasses.FrozenInstanceError, "cannot assign to field %r" % name)
+
+        def frozen_del(o, name):
+            I.throw(_dataclasses.FrozenInstanceError, "cannot delete field %r" % name)
+
+        def hash_(o):
+            try:
+                return hash(tuple(values(o)))
+            except TypeError as ex:
+                raise Raised(ex)
+
+        def unhashable(o):
+            I.throw(TypeError, "unhashable type: %r" % short)
+
+        def put(name, fn):
+            if name not in ns:
+                ns[name] = SynthMethod("%s.%s" % (short, name), fn)
+
+        if params["init"]:
+            put("__init__", init)
+        if params["repr"]:
+            put("__repr__", repr_)
+        if params["eq"]:
+            put("__eq__", eq)
+        if params["order"]:
+            for name, op, oneq in (("__lt__", ast.Lt, False), ("__le__", ast.LtE, True), ("__gt__", ast.Gt, False), ("__ge__", ast.GtE, True)):
+                if name in ns:
+                    I.throw(TypeError, "Cannot overwrite attribute %s in class %s" % (name, short))
+                put(name, order(op, oneq))
+        if params["frozen"]:
+            put("__setattr__", frozen_set)
+            put("__delattr__", frozen_del)
+        if params["unsafe_hash"] or (params["eq"] and params["frozen"]):
+            put("__hash__", hash_)
+        elif params["eq"]:
+            put("__hash__", unhashable)
+        if params["match_args"] and "__match_args__" not in ns:
+            ns["__match_args__"] = tuple(name for name, fld in self._dc_all_own(qn, own) if fld.init and fld.kw_only is not True)
+
+    def _dc_all_own(self, qn, own):
+        out = {}
+        for q in reversed(self.prog.mro(qn)):
+            if q == qn:
+                for name, fld in own:
+                    out[name] = (name, fld)
+            elif q in self._dc:
+                for name, fld in self.class_ns(q).get("__k_dc_own__", ()):
+                    out[name] = (name, fld)
+        return list(out.values())
 
     # enum tables
     def enum_state(self, cref):
@@ -917,7 +1284,7 @@ class Interp:
         f, _ = self.class_lookup(obj._k_cref, name)
         if f is None:
             return None
-        if isinstance(f, FuncVal):
+        if isinstance(f, (FuncVal, SynthMethod)):
             return BoundMethod(f, obj)
         if isinstance(f, StaticMethod):
             return f.f
@@ -1024,7 +1391,7 @@ class Interp:
         if isinstance(v, BaseException):
             if name == "args":
                 return v.args
-            if name in ("errno", "strerror", "reason", "start", "end", "object", "encoding", "__cause__", "__context__"):
+            if name in ("errno", "strerror", "reason", "start", "end", "object", "encoding", "__cause__", "__context__", "value"):
                 return self._host_attr(v, name)
             if name == "with_traceback":
                 return Builtin("with_traceback", lambda tb: v)
@@ -1104,7 +1471,7 @@ class Interp:
                         return TupleInst([d[f] for f in nt.fields], cref)
                     return Builtin("_replace", _replace)
         if cv is not None:
-            if isinstance(cv, FuncVal):
+            if isinstance(cv, (FuncVal, SynthMethod)):
                 return BoundMethod(cv, o)
             if isinstance(cv, ClassMethod):
                 return BoundMethod(cv.f, cref)
@@ -1167,7 +1534,7 @@ class Interp:
         cref = obj if isinstance(obj, ClassRef) else obj._k_cref
         cv, cq = self.class_lookup(cref, name, after=sp.owner)
         if cv is not None:
-            if isinstance(cv, FuncVal):
+            if isinstance(cv, (FuncVal, SynthMethod)):
                 return BoundMethod(cv, obj)
             if isinstance(cv, ClassMethod):
                 return BoundMethod(cv.f, cref)
@@ -1219,7 +1586,7 @@ class Interp:
                 self.call(cv.fset, [o, val], {})
                 return
             sa, _ = self.class_lookup(o._k_cref, "__setattr__")
-            if isinstance(sa, FuncVal):
+            if isinstance(sa, (FuncVal, SynthMethod)):
                 self.call(sa, [o, name, val], {})
                 return
             if isinstance(o, Obj) and isinstance(o._k_cref, ClassRef):
@@ -1273,6 +1640,10 @@ class Interp:
                     self.throw(AttributeError, "can't delete attribute %r" % name)
                 self.call(cv.fdel, [o], {})
                 return
+            da, _ = self.class_lookup(o._k_cref, "__delattr__")
+            if isinstance(da, (FuncVal, SynthMethod)):
+                self.call(da, [o, name], {})
+                return
             if name in o._k_attrs:
                 del o._k_attrs[name]
                 return
@@ -1311,7 +1682,12 @@ class Interp:
             f = self.find_dunder(v, "__iter__")
             if f is None:
                 self.throw(TypeError, "object is not iterable")
-            return self.iterate(f())
+            r = f()
+            if isinstance(r, INST) and self.find_dunder(r, "__next__") is not None:
+                return self._iter_via_next(r)
+            if r is v:
+                self.throw(TypeError, "iter() returned non-iterator")
+            return self.iterate(r)
         if isinstance(v, ClassRef):
             if self.kind_of(v.qn) == "enum":
                 st = self.enum_state(v)
@@ -1325,6 +1701,23 @@ class Interp:
             except TypeError as e:
                 raise Raised(e)
         raise Unsupported("iteration over a %s value" % type(v).__name__)
+
+    def _iter_via_next(self, o):
+        """host iterator over an interpreted iterator object (a class with __next__)"""
+        nxt = self.find_dunder(o, "__next__")
+
+        def gen():
+            while True:
+                self.tick()
+                try:
+                    x = nxt()
+                except Raised as r:
+                    if self.exc_matches(r.exc, StopIteration):
+                        return
+                    raise
+                yield x
+
+        return gen()
 
     def next_of(self, it):
         """one step of a host iterator on behalf of the interpreted program -> (True, v) | (False, None)"""
@@ -2053,7 +2446,7 @@ class Interp:
         raise Unsupported("await")
 
     def _e_yield(self, e, fr):
-        raise Unsupported("yield used as an expression")
+        raise Unsupported("yield nested inside an expression (or outside a generator function)")
 
     _EV = {
         ast.Constant: _e_const, ast.Name: _e_name, ast.Attribute: _e_attr, ast.Tuple: _e_tuple, ast.List: _e_list, ast.Set: _e_set, ast.Dict: _e_dict,
@@ -2159,22 +2552,21 @@ class Interp:
         if st.value is not None:
             self.assign(st.target, self.eval(st.value, fr), fr)
 
-    def _s_augassign(self, st, fr):
-        t = st.target
-        host, dn = _IOPS[type(st.op)]
+    def _aug_load(self, t, fr):
         if isinstance(t, ast.Name):
-            cur = self.lookup(t.id, fr)
-            obj = idx = None
-        elif isinstance(t, ast.Attribute):
+            return self.lookup(t.id, fr), None, None
+        if isinstance(t, ast.Attribute):
             obj = self.eval(t.value, fr)
-            cur = self.getattr(obj, t.attr)
-        elif isinstance(t, ast.Subscript):
+            return self.getattr(obj, t.attr), obj, None
+        if isinstance(t, ast.Subscript):
             obj = self.eval(t.value, fr)
             idx = self.eval(t.slice, fr)
-            cur = self.subscript(obj, idx)
-        else:
-            raise Unsupported("augmented assignment target")
-        r = self.eval(st.value, fr)
+            return self.subscript(obj, idx), obj, idx
+        raise Unsupported("augmented assignment target")
+
+    def _aug_store(self, st, fr, cur, obj, idx, r):
+        t = st.target
+        host, dn = _IOPS[type(st.op)]
         new = NotImplemented
         if isinstance(cur, INST):
             f = self.find_dunder(cur, dn)
@@ -2197,6 +2589,10 @@ class Interp:
             self.setattr(obj, t.attr, new)
         else:
             self.setitem(obj, idx, new)
+
+    def _s_augassign(self, st, fr):
+        cur, obj, idx = self._aug_load(st.target, fr)
+        self._aug_store(st, fr, cur, obj, idx, self.eval(st.value, fr))
 
     def _s_return(self, st, fr):
         return _Sig("return", self.eval(st.value, fr) if st.value is not None else None)
@@ -2346,64 +2742,297 @@ class Interp:
                     return fsig  # noqa: B012 (mirrors the interpreted program)
         return sig
 
-    def _s_with(self, st, fr):
-        mgrs = []
+    # -- with statements: every manager is normalised to an exit function `exit(r) -> swallowed?` (r: the Raised in
+    #    flight or None); the unwinding below is the host's: innermost first, an exception raised by an exit function
+    #    replaces the one in flight, a manager that swallows lets the outer ones see a normal exit ----------------------
+    def _with_enter(self, st, fr, mgrs):
         for it in st.items:
             cm = self.eval(it.context_expr, fr)
             if isinstance(cm, Suppress):
-                if it.optional_vars is not None:
-                    self.assign(it.optional_vars, None, fr)
-                mgrs.append(cm)
-                continue
-            if not isinstance(cm, INST):
+                v = None
+                mgrs.append(lambda r, cm=cm: r is not None and bool(cm.types) and self.exc_matches(r.exc, cm.types))
+            elif isinstance(cm, NullContext):
+                v = cm.value
+                mgrs.append(lambda r: False)
+            elif isinstance(cm, GenContext):
+                v = self._genctx_enter(cm)
+                mgrs.append(lambda r, cm=cm: self._genctx_exit(cm, r))
+            elif isinstance(cm, (_io.BytesIO, _io.StringIO, memoryview)):
+                # in-memory host objects: entering returns the object, leaving releases the buffer (host semantics)
+                v = cm.__enter__()
+                mgrs.append(lambda r, cm=cm: bool(cm.__exit__(None, None, None)))
+            elif isinstance(cm, INST):
+                enter = self.find_dunder(cm, "__enter__")
+                exit_ = self.find_dunder(cm, "__exit__")
+                if enter is None or exit_ is None:
+                    self.throw(TypeError, "object does not support the context manager protocol")
+                v = enter()
+                mgrs.append(functools.partial(self._inst_exit, exit_))
+            else:
+                if isinstance(cm, Poison):
+                    raise Unsupported(cm.why)
                 raise Unsupported("with-statement over a %s value" % type(cm).__name__)
-            enter = self.find_dunder(cm, "__enter__")
-            exit_ = self.find_dunder(cm, "__exit__")
-            if enter is None or exit_ is None:
-                self.throw(TypeError, "object does not support the context manager protocol")
-            v = enter()
-            mgrs.append(exit_)
             if it.optional_vars is not None:
                 self.assign(it.optional_vars, v, fr)
+
+    def _inst_exit(self, exit_, r):
+        if r is None:
+            exit_(None, None, None)
+            return False
+        return self.truth(exit_(self._exc_type(r.exc), r.exc, None))
+
+    def _with_unwind(self, mgrs, r):
+        """run the exit functions; returns the Raised still in flight afterwards (None: normal continuation)"""
+        for ex in reversed(mgrs):
+            try:
+                if ex(r):
+                    r = None
+            except Raised as r2:
+                r = r2
+        return r
+
+    def _genctx_enter(self, cm):
+        ok, v = self.next_of(cm.gen)
+        if not ok:
+            self.throw(RuntimeError, "generator didn't yield")
+        return v
+
+    def _genctx_exit(self, cm, r):
+        if r is None:
+            ok, _ = self.next_of(cm.gen)
+            if ok:
+                self.throw(RuntimeError, "generator didn't stop")
+            return False
         try:
+            cm.gen.throw(r)
+        except StopIteration:
+            return True
+        except Raised as r2:
+            if r2.exc is r.exc:
+                return False
+            raise
+        self.throw(RuntimeError, "generator didn't stop after throw()")
+
+    def _s_with(self, st, fr):
+        mgrs = []
+        try:
+            self._with_enter(st, fr, mgrs)
             sig = self.exec_block(st.body, fr)
         except Raised as r:
-            swallowed = False
-            for ex in reversed(mgrs):
-                if isinstance(ex, Suppress):
-                    if ex.types and self.exc_matches(r.exc, ex.types):
-                        swallowed = True
-                        break
-                    continue
-                if self.truth(ex(self._exc_type(r.exc), r.exc, None)):
-                    swallowed = True
-                    break
-            if not swallowed:
+            r2 = self._with_unwind(mgrs, r)
+            if r2 is None:
+                return None
+            if r2 is r:
                 raise
-            return None
-        for ex in reversed(mgrs):
-            if not isinstance(ex, Suppress):
-                ex(None, None, None)
+            raise r2
+        r2 = self._with_unwind(mgrs, None)
+        if r2 is not None:
+            raise r2
         return sig
 
     def _exc_type(self, exc):
         return exc._k_cref if isinstance(exc, INST) else type(exc)
 
     def _s_classdef(self, st, fr):
-        raise Unsupported("class definition inside a function")
+        """a class defined inside a function.  The program index knows it as <function>.<locals>.<name>; its namespace
+        is evaluated like that of a module-level class, i.e. without the enclosing function's frame -- exact as long as
+        neither the body nor a method refers to a local of the enclosing function, which is checked here (otherwise
+        refused)."""
+        qn = self._local_classes().get(id(st))
+        if qn is None:
+            raise Unsupported("class definition %s inside a function is not indexed" % st.name)
+        free = set()
+        for n in ast.walk(st):
+            if isinstance(n, ast.Name) and isinstance(n.ctx, ast.Load):
+                free.add(n.id)
+        f = fr
+        while f is not None:
+            hit = sorted(x for x in free if (x in f.localnames or x in f.locals) and x != st.name)
+            if hit and f.clsns is None:
+                raise Unsupported("class %s defined inside a function refers to the enclosing function's local %s" % (st.name, hit[0]))
+            f = f.closure
+        self.store_name(st.name, self.classref(qn), fr)
+
+    def _local_classes(self):
+        m = self._scope.get("localclasses")
+        if m is None:
+            m = self._scope["localclasses"] = {id(ci.node): q for q, ci in self.prog.classes.items() if ".<locals>." in q}
+        return m
+
+    def _s_typealias(self, st, fr):
+        # `type X = ...` (PEP 695): the value is evaluated lazily by the host and is never a run-time operand of the codec
+        if isinstance(st.name, ast.Name):
+            self.store_name(st.name.id, Poison("type alias %s used as a value" % st.name.id), fr)
+
+    # -- match statements (PEP 634) ------------------------------------------------------------------------
+    _MATCH_SELF = (bool, bytearray, bytes, dict, float, frozenset, int, list, set, str, tuple)
+
+    def _match_args(self, cls):
+        """names the positional sub-patterns of `case cls(a, b)` stand for; "self": the single positional sub-pattern
+        matches the subject itself (classes derived from the host's int/str/... without __match_args__); None: no
+        positional sub-patterns are accepted"""
+        if isinstance(cls, NTBase):
+            return tuple(cls.fields)
+        v, _q = self.class_lookup(cls, "__match_args__")
+        if v is not None:
+            if not isinstance(v, tuple) or not all(isinstance(x, str) for x in v):
+                self.throw(TypeError, "__match_args__ must be a tuple of strings")
+            return v
+        kind = self.kind_of(cls.qn)
+        if kind == "namedtuple":
+            return tuple(self.kind_extra(cls.qn).fields)
+        dc = self.dataclass_params(cls.qn)
+        if dc is not None and dc.get("match_args", True):
+            return tuple(f[0] for f in self.dataclass_fields(cls) if f[3].get("init", True) and not f[3].get("kw_only", False))
+        if kind == "enum" and self.kind_extra(cls.qn):
+            return "self"
+        return None
+
+    def _match_pattern(self, p, subj, fr, binds):
+        """does subj match pattern p?  Captures are collected in `binds` and stored by the caller once the whole
+        pattern has matched, before the guard is evaluated (what the host does)."""
+        t = type(p)
+        if t is ast.MatchValue:
+            return self.truth(self.equals(subj, self.eval(p.value, fr)))
+        if t is ast.MatchSingleton:
+            return subj is p.value
+        if t is ast.MatchAs:
+            if p.pattern is not None and not self._match_pattern(p.pattern, subj, fr, binds):
+                return False
+            if p.name is not None:
+                binds[p.name] = subj
+            return True
+        if t is ast.MatchOr:
+            for alt in p.patterns:
+                b2 = {}
+                if self._match_pattern(alt, subj, fr, b2):
+                    binds.update(b2)
+                    return True
+            return False
+        if isinstance(subj, Poison):
+            raise Unsupported(subj.why)
+        if not (isinstance(subj, INST) or isinstance(subj, SAFE_TYPES) or isinstance(subj, (BaseException, ClassRef, NTBase, FuncVal, BoundMethod, Builtin, ModuleVal, ExtModule, Property)) or isinstance(subj, _ITER_TYPES)):
+            raise Unsupported("structural pattern applied to a %s value" % type(subj).__name__)
+        if t is ast.MatchSequence:
+            # sequences of the host's data model: list, tuple (and namedtuple instances), range, deque, memoryview;
+            # never str / bytes / bytearray; an instance of a repository class is one only through
+            # collections.abc.Sequence, which the evaluator does not model (such a class cannot be instantiated here)
+            if not isinstance(subj, (list, tuple, range, collections.deque, memoryview)):
+                return False
+            items = list(subj)
+            pats = p.patterns
+            stars = [i for i, x in enumerate(pats) if isinstance(x, ast.MatchStar)]
+            if not stars:
+                if len(items) != len(pats):
+                    return False
+                return all(self._match_pattern(x, v, fr, binds) for x, v in zip(pats, items))
+            i = stars[0]
+            after = len(pats) - i - 1
+            if len(items) < len(pats) - 1:
+                return False
+            if not all(self._match_pattern(x, v, fr, binds) for x, v in zip(pats[:i], items[:i])):
+                return False
+            if after and not all(self._match_pattern(x, v, fr, binds) for x, v in zip(pats[i + 1:], items[len(items) - after:])):
+                return False
+            if pats[i].name is not None:
+                binds[pats[i].name] = items[i:len(items) - after]
+            return True
+        if t is ast.MatchMapping:
+            if not isinstance(subj, (dict, types.MappingProxyType)):
+                return False
+            keys = [self.eval(k, fr) for k in p.keys]
+            if len(subj) < len(keys):
+                return False
+            missing = object()
+            for k, sub in zip(keys, p.patterns):
+                try:
+                    v = subj.get(k, missing)  # .get: a defaultdict is not extended, as in the host
+                except TypeError as ex:
+                    raise Raised(ex)
+                if v is missing or not self._match_pattern(sub, v, fr, binds):
+                    return False
+            if p.rest:
+                rest = dict(subj)
+                for k in keys:
+                    rest.pop(k, None)
+                binds[p.rest] = rest
+            return True
+        if t is ast.MatchClass:
+            cls = self.eval(p.cls, fr)
+            if not (isinstance(cls, (ClassRef, NTBase)) or isinstance(cls, type)):
+                if isinstance(cls, Poison):
+                    raise Unsupported(cls.why)
+                self.throw(TypeError, "called match pattern must be a class")
+            if not self._classinfo_match(subj, cls):
+                return False
+            names = []
+            if p.patterns:
+                if isinstance(cls, type):
+                    margs = "self" if any(issubclass(cls, b) for b in self._MATCH_SELF) else None
+                else:
+                    margs = self._match_args(cls)
+                if margs == "self":
+                    if len(p.patterns) > 1:
+                        self.throw(TypeError, "class pattern accepts at most 1 positional sub-pattern")
+                    if not self._match_pattern(p.patterns[0], subj, fr, binds):
+                        return False
+                else:
+                    margs = margs or ()
+                    if len(p.patterns) > len(margs):
+                        self.throw(TypeError, "class pattern accepts at most %d positional sub-patterns (%d given)" % (len(margs), len(p.patterns)))
+                    names = [(n, sub) for n, sub in zip(margs, p.patterns)]
+            names += list(zip(p.kwd_attrs, p.kwd_patterns))
+            for n, sub in names:
+                try:
+                    v = self.getattr(subj, n)
+                except Raised as r:
+                    if self.exc_matches(r.exc, AttributeError):
+                        return False
+                    raise
+                if not self._match_pattern(sub, v, fr, binds):
+                    return False
+            return True
+        raise Unsupported("pattern %s is outside the evaluator's vocabulary" % t.__name__)
+
+    def _select_case(self, st, subj, fr):
+        for case in st.cases:
+            self.tick()
+            binds = {}
+            if not self._match_pattern(case.pattern, subj, fr, binds):
+                continue
+            for k, v in binds.items():
+                self.store_name(k, v, fr)
+            if case.guard is not None and not self.truth(self.eval(case.guard, fr)):
+                continue
+            return case
+        return None
+
+    def _s_match(self, st, fr):
+        case = self._select_case(st, self.eval(st.subject, fr), fr)
+        return self.exec_block(case.body, fr) if case is not None else None
 
     _EX = {
         ast.Expr: _s_expr, ast.Assign: _s_assign, ast.AnnAssign: _s_annassign, ast.AugAssign: _s_augassign, ast.Return: _s_return, ast.Pass: _s_pass,
         ast.Break: _s_break, ast.Continue: _s_continue, ast.If: _s_if, ast.While: _s_while, ast.For: _s_for, ast.Raise: _s_raise, ast.Assert: _s_assert,
         ast.Delete: _s_delete, ast.FunctionDef: _s_funcdef, ast.Import: _s_import, ast.ImportFrom: _s_import, ast.Global: _s_global, ast.Nonlocal: _s_global,
-        ast.Try: _s_try, ast.With: _s_with, ast.ClassDef: _s_classdef,
+        ast.Try: _s_try, ast.With: _s_with, ast.ClassDef: _s_classdef, ast.Match: _s_match,
     }
+    if "TypeAlias" in vars(ast):
+        _EX[ast.TypeAlias] = _s_typealias
 
-    # -- generator functions: a second executor that yields (statement-level yield / yield from only) --------
+    # -- generator functions: a second executor that can suspend.  It mirrors the statement executor for every
+    #    compound statement (if / for / while / try / with / match) and suspends at the places a statement can carry a
+    #    yield at its top: `yield v`, `x = yield v`, `x += yield v`, `return (yield v)`, the same with `yield from`, and
+    #    a condition that is a yield.  Sent values, throw() and close() are the host generator's own.  A yield nested
+    #    deeper inside an expression is outside the vocabulary (refused by _e_yield). --------
     def exec_gen_body(self, body, fr):
         def gen():
             sig = yield from self._g_block(body, fr)
-            return sig
+            if sig is None:
+                return None
+            if sig.kind == "return":
+                return sig.value
+            raise Unsupported("break/continue outside loop in a generator")
 
         return gen()
 
@@ -2414,21 +3043,52 @@ class Interp:
                 return sig
         return None
 
-    def _g_stmt(self, st, fr):
-        if not _has_yield_stmt(st):
-            return self.exec_stmt(st, fr)
-        if isinstance(st, ast.Expr) and isinstance(st.value, ast.Yield):
-            yield (self.eval(st.value.value, fr) if st.value.value is not None else None)
-            return None
-        if isinstance(st, ast.Expr) and isinstance(st.value, ast.YieldFrom):
-            it = self.iterate(self.eval(st.value.value, fr))
+    def _g_value(self, e, fr):
+        if isinstance(e, ast.Yield):
+            v = self.eval(e.value, fr) if e.value is not None else None
+            sent = yield v
+            return sent
+        if isinstance(e, ast.YieldFrom):
+            it = self.iterate(self.eval(e.value, fr))
+            if isinstance(it, types.GeneratorType):
+                # an interpreted generator (function or generator expression): the host's delegation passes sent
+                # values / throw() / close() through and hands back the generator's return value
+                return (yield from it)
             while True:
                 ok, x = self.next_of(it)
                 if not ok:
                     return None
                 yield x
+        return self.eval(e, fr)
+
+    def _g_stmt(self, st, fr):
+        hy = self._ycache.get(id(st))
+        if hy is None:
+            hy = self._ycache[id(st)] = (_has_yield_stmt(st), st)
+        if not hy[0]:
+            return self.exec_stmt(st, fr)
+        if isinstance(st, ast.Expr):
+            yield from self._g_value(st.value, fr)
+            return None
+        if isinstance(st, ast.Assign):
+            v = yield from self._g_value(st.value, fr)
+            for t in st.targets:
+                self.assign(t, v, fr)
+            return None
+        if isinstance(st, ast.AnnAssign):
+            if st.value is not None:
+                v = yield from self._g_value(st.value, fr)
+                self.assign(st.target, v, fr)
+            return None
+        if isinstance(st, ast.AugAssign):
+            cur, obj, idx = self._aug_load(st.target, fr)
+            r = yield from self._g_value(st.value, fr)
+            self._aug_store(st, fr, cur, obj, idx, r)
+            return None
+        if isinstance(st, ast.Return):
+            return _Sig("return", (yield from self._g_value(st.value, fr)) if st.value is not None else None)
         if isinstance(st, ast.If):
-            if self.truth(self.eval(st.test, fr)):
+            if self.truth((yield from self._g_value(st.test, fr))):
                 return (yield from self._g_block(st.body, fr))
             return (yield from self._g_block(st.orelse, fr))
         if isinstance(st, ast.For):
@@ -2448,7 +3108,7 @@ class Interp:
                     return sig
             return (yield from self._g_block(st.orelse, fr))
         if isinstance(st, ast.While):
-            while self.truth(self.eval(st.test, fr)):
+            while self.truth((yield from self._g_value(st.test, fr))):
                 self.tick()
                 sig = yield from self._g_block(st.body, fr)
                 if sig is not None:
@@ -2458,10 +3118,73 @@ class Interp:
                         continue
                     return sig
             return (yield from self._g_block(st.orelse, fr))
-        raise Unsupported("yield inside %s (or used as an expression)" % type(st).__name__)
+        if isinstance(st, ast.Match):
+            case = self._select_case(st, self.eval(st.subject, fr), fr)
+            return (yield from self._g_block(case.body, fr)) if case is not None else None
+        if isinstance(st, ast.Try):
+            return (yield from self._g_try(st, fr))
+        if isinstance(st, ast.With):
+            return (yield from self._g_with(st, fr))
+        raise Unsupported("yield inside %s" % type(st).__name__)
+
+    def _g_try(self, st, fr):
+        sig = None
+        try:
+            try:
+                sig = yield from self._g_block(st.body, fr)
+            except Raised as r:
+                exc = r.exc
+                for h in st.handlers:
+                    if h.type is None or self.exc_matches(exc, self.eval(h.type, fr)):
+                        break
+                else:
+                    raise
+                if h.name:
+                    self.store_name(h.name, exc, fr)
+                saved = fr.exc
+                fr.exc = exc
+                try:
+                    sig = yield from self._g_block(h.body, fr)
+                finally:
+                    fr.exc = saved
+                    if h.name and h.name in fr.locals:
+                        del fr.locals[h.name]
+            else:
+                if sig is None:
+                    sig = yield from self._g_block(st.orelse, fr)
+        finally:
+            if st.finalbody:
+                fsig = yield from self._g_block(st.finalbody, fr)
+                if fsig is not None:
+                    return fsig  # noqa: B012 (mirrors the interpreted program)
+        return sig
+
+    def _g_with(self, st, fr):
+        mgrs = []
+        try:
+            self._with_enter(st, fr, mgrs)
+            sig = yield from self._g_block(st.body, fr)
+        except Raised as r:
+            r2 = self._with_unwind(mgrs, r)
+            if r2 is None:
+                return None
+            if r2 is r:
+                raise
+            raise r2
+        except GeneratorExit:
+            # the generator is closed while suspended inside the with-body: the managers see a normal exit here
+            # (the host would pass GeneratorExit; none of the modelled managers distinguishes the two)
+            self._with_unwind(mgrs, None)
+            raise
+        r2 = self._with_unwind(mgrs, None)
+        if r2 is not None:
+            raise r2
+        return sig
 
 
 def _has_yield_stmt(st):
+    if isinstance(st, (ast.FunctionDef, ast.AsyncFunctionDef, ast.ClassDef)):
+        return False
     todo = [st]
     while todo:
         n = todo.pop()
@@ -2511,6 +3234,9 @@ _SAFE_CALLABLES = {
     math.ceil, math.floor, math.log2, math.log, math.sqrt, math.gcd, math.isnan, math.isinf, math.isfinite, math.trunc,
     operator.itemgetter, operator.add, operator.sub, operator.mul, operator.or_, operator.and_, operator.xor, operator.lshift, operator.rshift,
     operator.floordiv, operator.mod, operator.neg, operator.lt, operator.le, operator.gt, operator.ge, operator.index, operator.getitem, operator.concat,
+    struct.pack_into, struct.iter_unpack, _codecs.encode, _codecs.decode, _codecs.utf_8_decode, _codecs.utf_8_encode, _bisect.bisect, _bisect.bisect_left, _bisect.bisect_right, _bisect.insort, _bisect.insort_left, _bisect.insort_right,
+    itertools.compress, itertools.filterfalse, itertools.tee, itertools.permutations, itertools.combinations, itertools.combinations_with_replacement,
+    *[getattr(itertools, n) for n in ("pairwise", "batched") if hasattr(itertools, n)],
     _html.escape, _html.unescape, _base64.b64encode, _base64.b64decode, _base64.urlsafe_b64encode, _base64.urlsafe_b64decode, _base64.b16encode, _base64.b16decode, _base64.b32encode, _base64.b32decode, collections.OrderedDict, collections.defaultdict, collections.deque, collections.Counter,
 }
 
@@ -2563,16 +3289,72 @@ def _install(Interp):
         def getLogger(*a):
             return NullLogger()
 
+        def contextmanager(f):
+            def make(*a, **k):
+                g = I.call(f, list(a), k)
+                if not isinstance(g, types.GeneratorType):
+                    I.throw(TypeError, "contextmanager function did not return a generator")
+                return GenContext(g)
+            # binds like the function it wraps when it is defined in a class body
+            return SynthMethod("contextmanager:" + getattr(f, "name", "?"), make)
+
+        def dc_is(o):
+            q = o.qn if isinstance(o, ClassRef) else (o._k_cref.qn if isinstance(o, INST) and isinstance(o._k_cref, ClassRef) else None)
+            return q is not None and I.dataclass_params(q) is not None
+
+        def dc_need(o):
+            if not (isinstance(o, INST) and dc_is(o)):
+                I.throw(TypeError, "dataclass instance expected")
+
+        def dc_replace(o, **changes):
+            dc_need(o)
+            kw = {}
+            for name, _d, _f, opts in I.dataclass_fields(o._k_cref):
+                if not opts["init"]:
+                    if name in changes:
+                        I.throw(ValueError, "field %s is declared with init=False, it cannot be specified with replace()" % name)
+                    continue
+                kw[name] = changes.pop(name) if name in changes else I.getattr(o, name)
+            kw.update(changes)
+            return I.instantiate(o._k_cref, [], kw)
+
+        def dc_conv(v, asdict):
+            if isinstance(v, INST) and dc_is(v):
+                vals = [(f[0], dc_conv(I.getattr(v, f[0]), asdict)) for f in I.dataclass_fields(v._k_cref)]
+                return dict(vals) if asdict else tuple(x for _n, x in vals)
+            if isinstance(v, (list, tuple)) and not isinstance(v, TupleInst):
+                return type(v)(dc_conv(x, asdict) for x in v)
+            if isinstance(v, dict):
+                return {dc_conv(k, asdict): dc_conv(x, asdict) for k, x in v.items()}
+            return v
+
+        def dc_astuple(o):
+            dc_need(o)
+            return dc_conv(o, False)
+
+        def dc_asdict(o):
+            dc_need(o)
+            return dc_conv(o, True)
+
         enum_mod = ExtModule("enum", {
             "auto": Builtin("auto", lambda: _AUTO), "Enum": Poison("enum.Enum used as a value"), "IntEnum": Poison("enum.IntEnum used as a value"),
             "unique": Builtin("unique", identity), "EnumMeta": Poison("EnumMeta"), "EnumType": Poison("EnumType"),
         })
         typing_attrs = collections.defaultdict(lambda: None)
         mods = {
-            "struct": ExtModule("struct", {"pack": struct.pack, "unpack": struct.unpack, "unpack_from": struct.unpack_from, "calcsize": struct.calcsize, "error": struct.error}),
+            "struct": ExtModule("struct", {"pack": struct.pack, "unpack": struct.unpack, "unpack_from": struct.unpack_from, "calcsize": struct.calcsize, "error": struct.error,
+                                           "Struct": struct.Struct, "pack_into": struct.pack_into, "iter_unpack": struct.iter_unpack}),
+            "io": ExtModule("io", {"BytesIO": _io.BytesIO, "StringIO": _io.StringIO}),
+            "types": ExtModule("types", {"MappingProxyType": types.MappingProxyType}),
+            "codecs": ExtModule("codecs", {"encode": _codecs.encode, "decode": _codecs.decode, "utf_8_decode": _codecs.utf_8_decode, "utf_8_encode": _codecs.utf_8_encode}),
+            "bisect": ExtModule("bisect", {n: getattr(_bisect, n) for n in ("bisect", "bisect_left", "bisect_right", "insort", "insort_left", "insort_right")}),
+            "dataclasses": ExtModule("dataclasses", {"dataclass": Poison("dataclasses.dataclass used as a value (only its use as a class decorator is modelled)"), "field": Builtin("field", lambda **k: DCField(**k)),
+                                                     "replace": Builtin("replace", dc_replace), "astuple": Builtin("astuple", dc_astuple), "asdict": Builtin("asdict", dc_asdict),
+                                                     "is_dataclass": Builtin("is_dataclass", dc_is), "FrozenInstanceError": _dataclasses.FrozenInstanceError, "KW_ONLY": None, "MISSING": _dataclasses.MISSING}),
             "functools": ExtModule("functools", {"partial": functools.partial, "reduce": functools.reduce, "wraps": Builtin("wraps", wraps), "lru_cache": Builtin("lru_cache", lru_cache),
                                                  "cache": Builtin("cache", identity), "cached_property": Builtin("cached_property", cached_property)}),
-            "itertools": ExtModule("itertools", {n: getattr(itertools, n) for n in ("chain", "count", "islice", "repeat", "accumulate", "takewhile", "dropwhile", "zip_longest", "product", "starmap", "groupby", "cycle")}),
+            "itertools": ExtModule("itertools", {n: getattr(itertools, n) for n in ("chain", "count", "islice", "repeat", "accumulate", "takewhile", "dropwhile", "zip_longest", "product", "starmap", "groupby", "cycle", "compress", "filterfalse",
+                                                                                         "tee", "permutations", "combinations", "combinations_with_replacement", "pairwise", "batched") if hasattr(itertools, n)}),
             "collections": ExtModule("collections", {"namedtuple": Builtin("namedtuple", namedtuple), "OrderedDict": collections.OrderedDict, "defaultdict": collections.defaultdict,
                                                      "deque": collections.deque, "Counter": collections.Counter, "abc": ExtModule("collections.abc", {})}),
             "operator": ExtModule("operator", {"attrgetter": Builtin("attrgetter", attrgetter), "itemgetter": operator.itemgetter, "methodcaller": Builtin("methodcaller", methodcaller), "eq": Builtin("eq", eq),
@@ -2587,10 +3369,13 @@ def _install(Interp):
             "sys": ExtModule("sys", {"version_info": tuple(sys.version_info[:3]) + ("final", 0), "maxsize": sys.maxsize, "byteorder": sys.byteorder}),
             "html": ExtModule("html", {"escape": _html.escape, "unescape": _html.unescape}),
             "logging": ExtModule("logging", {"getLogger": Builtin("getLogger", getLogger), "DEBUG": 10, "INFO": 20, "WARNING": 30, "ERROR": 40}),
-            "typing": ExtModule("typing", {"TYPE_CHECKING": False, "Optional": None, "Any": None, "Union": None, "cast": Builtin("cast", lambda t, v: v)}),
+            "typing": ExtModule("typing", {"TYPE_CHECKING": False, "Optional": None, "Any": None, "Union": None, "cast": Builtin("cast", lambda t, v: v),
+                                           "NamedTuple": Poison("typing.NamedTuple used as a value (only its use as a base class is modelled)"), "final": Builtin("final", identity),
+                                           "overload": Builtin("overload", identity)}),
             "base64": ExtModule("base64", {n: getattr(_base64, n) for n in ("b64encode", "b64decode", "urlsafe_b64encode", "urlsafe_b64decode", "b16encode", "b16decode", "b32encode", "b32decode")}),
             "socket": ExtModule("socket", {n: int(getattr(_socket, n)) for n in dir(_socket) if n.isupper() and isinstance(getattr(_socket, n), int)}),
-            "contextlib": ExtModule("contextlib", {"suppress": Builtin("suppress", lambda *t: Suppress(t))}),
+            "contextlib": ExtModule("contextlib", {"suppress": Builtin("suppress", lambda *t: Suppress(t)), "contextmanager": Builtin("contextmanager", contextmanager),
+                                                   "nullcontext": Builtin("nullcontext", lambda v=None: NullContext(v))}),
             "weakref": ExtModule("weakref", {"ref": Builtin("ref", lambda o, cb=None: Builtin("weakref", lambda: o))}),
             "errno": ExtModule("errno", {n: getattr(_errno, n) for n in dir(_errno) if n.isupper() and isinstance(getattr(_errno, n), int)}),
         }
@@ -2680,6 +3465,8 @@ def _install(Interp):
                 raise Unsupported(c.why)
             raise Unsupported("isinstance against %r" % (c,))
 
+        self._classinfo_match = classinfo_match
+
         def _isinstance(v, c):
             return classinfo_match(v, c)
 
@@ -2719,7 +3506,14 @@ def _install(Interp):
 
         def _iter(v, *s):
             if s:
-                raise Unsupported("iter with sentinel")
+                def until():
+                    while True:
+                        I.tick()
+                        x = I.call(v, [], {})
+                        if I.truth(I.equals(x, s[0])):
+                            return
+                        yield x
+                return until()
             return I.iterate(v)
 
         def _next(it, *d):
